@@ -159,7 +159,7 @@ def run(ctx):
         run_stream(ctx, gen_cases(ctx, k, depth))
         done += k
     # the same generator with every annotation wrapped in Annotated[..., metadata]
-    for mode in (True, "newtype", "typealias"):
+    for mode in S.WRAP_MODES:
         if ctx.time_left() > 30:
             run_stream(ctx, gen_cases(ctx, (500 if ctx.tier == "quick" else 6000) // (1 if mode is True else 2), depth), annot=mode)
     ctx.exhaustive = False
